@@ -157,3 +157,35 @@ func init() {
 		},
 	}
 }
+
+func e1Check(id, rule string, jobs func(tier string) []*Job, vac func(*Aggregate) string) {
+	checks[id] = &CheckSpec{ID: id, Level: "model_checking", Assumptions: e1Assumptions, Rule: rule, Jobs: jobs,
+		TierBudget: tierBudget(170*time.Second, 40*time.Minute), Vacuous: vac}
+}
+
+func needKinds(kinds ...string) func(*Aggregate) string {
+	return func(a *Aggregate) string {
+		for _, k := range kinds {
+			if a.Stats.KindsSent[k] == 0 {
+				return "no " + k + " was ever broadcast in the explored space"
+			}
+		}
+		if len(a.Stats.Decisions) == 0 {
+			return "no block was ever accepted in the explored space"
+		}
+		return ""
+	}
+}
+
+func init() {
+	e1Check("C02", "E1 safety-mode exploration (<=k deviations around each base, Byzantine menu incl. early/garbage/other-view commits and pre-commits); oracle at every ProcessBlock/ProcessPreBlock: >=M current-view (pre)commits whose signatures verify against exactly that block (re-evaluated by the oracle), block extends the ledger tip, equals the primary's proposal",
+		func(tier string) []*Job { return safetyFamily(tier, []int64{-1, 0}) }, needKinds("Commit", "PreCommit"))
+	e1Check("C03", "E1 safety-mode exploration; oracle on every honest node's complete Broadcast history per height: <=1 proposal / response per view, <=1 commit and pre-commit per height (also inside recovery messages), no view move or ChangeView after own (pre)commit, own message views non-decreasing",
+		func(tier string) []*Job { return safetyFamily(tier, []int64{-1, 0}) }, needKinds("Commit", "PreCommit", "CV", "RecMsg"))
+	e1Check("C04", "E1 safety-mode exploration; oracle at each Broadcast / view increase, evaluated on the exported Context at that instant: response only for the designated primary's verified complete proposal naming its hash; (pre)commit only with proposal, all transactions and >=M preparations naming it; view v entered only with change views >=v from >=M validators (monitor's own record)",
+		func(tier string) []*Job { return safetyFamily(tier, []int64{-1, 0}) }, needKinds("PResp", "Commit", "CV"))
+	e1Check("C07", "E1 safety-mode exploration with anti-MEV on / switching on / off; oracle on per-node callback order: commit only after own pre-commit, successful ProcessPreBlock (<=1 per height) and M current-view pre-commits; block built/signed only after that; below the enabling height no pre-commit, pre-block or ProcessPreBlock",
+		func(tier string) []*Job { return safetyFamily(tier, []int64{0, 5, -1}) }, needKinds("PreCommit", "Commit"))
+	e1Check("C10", "E1 safety-mode exploration; oracle after every API call on an undecided validator: injected timer armed for exactly (BlockIndex, ViewNumber), non-negative duration, not consumed-and-not-rearmed",
+		func(tier string) []*Job { return safetyFamily(tier, []int64{-1, 0}) }, needKinds("CV", "RecReq"))
+}
